@@ -39,6 +39,14 @@ type GoBackNConn struct {
 	recvDataChan chan *PacketData
 	sendDataChan chan *PacketData
 
+	// recvBuf holds the chunks of a message that is only partially
+	// received. It survives a Recv call that times out before the final
+	// chunk arrives, so that the next Recv call continues the message
+	// instead of returning its tail as if it were a message of its own.
+	// recvMtx serializes Recv calls and guards recvBuf.
+	recvBuf []byte
+	recvMtx sync.Mutex
+
 	log btclog.Logger
 
 	// receivedACKSignal channel is used to signal that the queue size has
@@ -211,10 +219,10 @@ func (g *GoBackNConn) Recv() ([]byte, error) {
 	default:
 	}
 
-	var (
-		b   []byte
-		msg *PacketData
-	)
+	g.recvMtx.Lock()
+	defer g.recvMtx.Unlock()
+
+	var msg *PacketData
 
 	ticker := time.NewTimer(g.timeoutManager.GetRecvTimeout())
 	defer ticker.Stop()
@@ -228,12 +236,15 @@ func (g *GoBackNConn) Recv() ([]byte, error) {
 		case msg = <-g.recvDataChan:
 		}
 
-		b = append(b, msg.Payload...)
+		g.recvBuf = append(g.recvBuf, msg.Payload...)
 
 		if msg.FinalChunk {
 			break
 		}
 	}
+
+	b := g.recvBuf
+	g.recvBuf = nil
 
 	return b, nil
 }
